@@ -70,6 +70,16 @@ static Wire c12(Reader& r) {
         } else { o.push_back(2); o.push_back(0); }
         return o;
     }
+    if (op==16) {
+        // repeated verdicts on one loaded geometry (thread-count runs): mode 0 selfCheck, mode 1 check(extra.tri)
+        ll gid=r.z(); size_t reps=r.n(); ll mode=r.z();
+        std::string dir="g"+std::to_string(gid)+"/";
+        Geometry geo(dir+"model.geom",dir+"model.cond");
+        std::unique_ptr<Mesh> em; if (mode==1) em.reset(new Mesh(dir+"extra.tri"));
+        ll ok=0;
+        for (size_t k=0;k<reps;++k) ok += (mode==1 ? geo.check(*em) : geo.selfCheck()) ? 1 : 0;
+        return Wire{ST_OK,ok};
+    }
     throw Reader::Malformed();
 }
 
